@@ -16,7 +16,7 @@ def describe(tier):
                 'DRBG bytes. Oracle: (1) no stored keyword and (SSE-2 excepted) no stored identifier is a byte substring of EDB.serialize() '
                 'or of any Token.serialize() (every stored keyword + absent ones); (2) the SKE-ciphertext-bearing entries of one EDB '
                 '(selected per scheme by position; concatenated level blocks / buckets split by the ciphertext length) are pairwise '
-                'distinct; (3) two EDBSetup runs of the same (K, DB) have disjoint ciphertext entries. Deterministic labels and DP17\'s HT '
+                'distinct; (3) two EDBSetup runs of the same (K, DB) by one scheme object, and a third by a brand-new scheme object, have disjoint ciphertext entries. Deterministic labels and DP17\'s HT '
                 'values are by design not in (2)/(3). non-trivial = case in which an identifier repeats or N >= 2.' % n,
         'bounds': 'N<=%d exhaustive over partitions x 2 content variants' % n,
         'assumptions': ['substring absence is decided for the generated values only (values are outside the alphabet); chance hit < 2^-40 per case',
@@ -82,6 +82,7 @@ def run_case(r, seed, name, label, cfg, profile, kwlen, relation):
         key = scheme.KeyGen()
         edb1 = scheme.EDBSetup(key, db)
         edb2 = scheme.EDBSetup(key, db)
+        edb3 = L.SSEScheme(copy.deepcopy(cfg1)).EDBSetup(key, db)      # the same (K, DB) once more, by a brand-new scheme object
         toks = [scheme.TokenGen(key, w).serialize() for w in list(db) + absent if len(w) <= sse.kw_limit(name, cfg)]
         r['transitions'] += 3 + len(toks)
     except Exception as e:
@@ -112,6 +113,12 @@ def run_case(r, seed, name, label, cfg, profile, kwlen, relation):
         r.v(PROPERTY, name, 'equal-ciphertexts', 'within-one-edb', case, 'ciphertext entries pairwise distinct',
             '%d entries, %d distinct' % (len(e1), len(set(e1))))
         r.outcome('equal-ciphertexts-within')
+    e3 = sse.cipher_entries(name, cfg1, sse.unpickle_edb(edb3.serialize()))
+    common3 = (set(e1) | set(e2)) & set(e3)
+    if common3:
+        r.v(PROPERTY, name, 'equal-ciphertexts', 'across-two-scheme-objects', case, 'ciphertext entries of setups by two scheme objects disjoint',
+            '%d common entries of %d' % (len(common3), len(e3)))
+        r.outcome('equal-ciphertexts-across-objects')
     common = set(e1) & set(e2)
     if common:
         r.v(PROPERTY, name, 'equal-ciphertexts', 'across-two-setups', case, 'ciphertext entries of two setups disjoint',
